@@ -129,11 +129,12 @@ _consts_cache = {}
 
 
 def z3_consts(e):
-    """frozenset of names of uninterpreted constants in a z3 expression (memoised by ast id)"""
+    """frozenset of names of uninterpreted constants in a z3 expression.
+    Memoised by ast id; the cache keeps a reference to the term so that z3 cannot recycle the id."""
     k = e.get_id()
     r = _consts_cache.get(k)
     if r is not None:
-        return r
+        return r[1]
     out = set()
     seen = set()
     stack = [e]
@@ -145,7 +146,7 @@ def z3_consts(e):
         seen.add(i)
         c = _consts_cache.get(i)
         if c is not None:
-            out |= c
+            out |= c[1]
             continue
         if z3.is_const(x):
             if x.decl().kind() == z3.Z3_OP_UNINTERPRETED:
@@ -153,9 +154,9 @@ def z3_consts(e):
         else:
             stack.extend(x.children())
     r = frozenset(out)
-    if len(_consts_cache) > 200000:
+    if len(_consts_cache) > 50000:
         _consts_cache.clear()
-    _consts_cache[k] = r
+    _consts_cache[k] = (e, r)
     return r
 
 
